@@ -765,8 +765,14 @@ func (c *Ctx) lemmaFormula(l *Lemma, suffix string) (binders []string, req, ens 
 		es = append(es, env.boolExpr(e.E))
 	}
 	var ts []string
-	for _, t := range l.Triggers {
-		ts = append(ts, env.eval(t.E).term)
+	var groups []string
+	for _, grp := range l.TrigGroups {
+		var gts []string
+		for _, t := range grp {
+			gts = append(gts, env.eval(t.E).term)
+		}
+		ts = append(ts, gts...)
+		groups = append(groups, ":pattern ("+strings.Join(gts, " ")+")")
 	}
 	var hs []string
 	for h := range env.heapParams {
@@ -782,7 +788,8 @@ func (c *Ctx) lemmaFormula(l *Lemma, suffix string) (binders []string, req, ens 
 		}
 	}
 	if len(ts) > 0 {
-		trig = ":pattern (" + strings.Join(ts, " ") + ")"
+		// every `trigger` line is an alternative multi-pattern
+		trig = strings.Join(groups, " ")
 	}
 	return binders, and(rs...), and(es...), trig
 }
